@@ -14,6 +14,13 @@ CLAIMED = {
     ),
 }
 
+CLAIMED["C11"] = (
+    "ast cache discovery (cached_property / memo getters / frozen eager table) + may-dirty abstract walk of every in-scope mutator with per-(method, cache, bool-flag) summaries over resolved self-calls and typed receiver calls",
+    "For every cache found in the package and every mutator the property names (all translate_rotate methods, prediction/trajectory/shape/wheelbase setters, update_initial_state/update_prediction, add/remove lanelet, cycle element/offset setters) decides that each write of a dependency is followed by a refresh on every path to an exit; plus the sibling-statement structure of the history lists in update_initial_state. Covers all interleavings because the obligation is per mutator call. Does not decide in-place mutation through exposed aliases.",
+    "Trusts the dependency sets read off the compute code, the frozen eager-cache table (5 rows with reasons), annotations for receiver types, and that Lanelet distances are invariant under rigid motion (C05).",
+    "DESIGN.md §2 E-CACHE, §3 C11",
+)
+
 NOT_APPLICABLE = {
     "C17": "modular arithmetic over runtime integers (%, cumsum, argmax): no sound static argument in reach; the only structural part (memo freshness) is decided under C11, and 'TrafficLight delegates to its cycle' is sufficient but not necessary, so a rule on it would fire on behaviour-preserving edits",
 }
